@@ -63,7 +63,7 @@ class _SimLockBase:
 
     def _sched(self):
         s = SIM.sched
-        if s is None:
+        if s is None or s.abandoned:
             return None
         return s if getattr(threading.current_thread(), "sim_id", None) is not None else None
 
